@@ -211,8 +211,26 @@ func TestVerifC11Resumed(t *testing.T) {
 			return
 		}
 		first.Pair.Close()
-		// same server config object => same ticket keys; same choice
-		second := vfGridRun(rt, st, "C11", vfGridOpts{Src: &src, SNI: &sni, CCfgMod: mod, KeepOpen: true, OnlySuccess: true, Label: "b_", Choice: &first.Choice, SCfg: first.SCfg})
+		// same server config object => same ticket keys; same choice - or the same server after an ALPN reconfiguration
+		// (protocol list dropped, or switched on): ALPN is negotiated per handshake, also on a resumed one
+		choice2, scfg2 := first.Choice, first.SCfg
+		switch rapid.IntRange(0, 3).Draw(rt, "alpn_reconfigured") {
+		case 0:
+			if first.Choice.ALPN != "" {
+				choice2.ALPN = ""
+				scfg2 = first.SCfg.Clone()
+				scfg2.NextProtos = nil
+				st.Class("second-server-dropped-alpn")
+			}
+		case 1:
+			if first.Choice.ALPN == "" && len(first.Prepared.Offer.ALPN) > 0 {
+				choice2.ALPN = first.Prepared.Offer.ALPN[0]
+				scfg2 = first.SCfg.Clone()
+				scfg2.NextProtos = []string{choice2.ALPN}
+				st.Class("second-server-added-alpn")
+			}
+		}
+		second := vfGridRun(rt, st, "C11", vfGridOpts{Src: &src, SNI: &sni, CCfgMod: mod, KeepOpen: true, OnlySuccess: true, Label: "b_", Choice: &choice2, SCfg: scfg2})
 		if second == nil || !second.OK {
 			return
 		}
